@@ -140,6 +140,9 @@ PANIC_IS_FAILURE = {
     'cuckoo': {'ins': 'C14', 'del': 'C14', 'q': 'C14', 'obs': 'C14', 'dobs': 'C14', 'union': 'C06', 'clear': 'C19'},
 }
 
+def axiom_allowed(a, allow):
+    return any(a == x or (x.endswith('*') and a.startswith(x[:-1])) for x in allow)
+
 def hash_str(s):
     return int(hashlib.sha1(s.encode()).hexdigest()[:8], 16)
 
@@ -186,7 +189,7 @@ def coq_stage(prop, tier):
                     info['ok'] = False
                     info['problems'].append('no Print Assumptions result for ' + n)
                 else:
-                    bad = [a for a in ax if a not in allow]
+                    bad = [a for a in ax if not axiom_allowed(a, allow)]
                     if bad:
                         info['ok'] = False
                         info['problems'].append('theorem %s depends on axioms outside the allowlist: %s' % (n, ', '.join(bad)))
@@ -258,7 +261,7 @@ def write_evidence(prop, tier, seed, coq, stages, violations, known_hits, wall, 
     os.makedirs(EVID, exist_ok=True)
     spec = PROPS[prop]
     obligations = len(coq['theorems']) if coq['theorems'] else len(build.theorem_names(prop))
-    discharged = sum(1 for n, ax in coq['theorems'].items() if ax is not None and all(a in set(ALLOW_AXIOMS.get(prop, [])) for a in ax)) if coq['ok'] or coq['theorems'] else 0
+    discharged = sum(1 for n, ax in coq['theorems'].items() if ax is not None and all(axiom_allowed(a, ALLOW_AXIOMS.get(prop, [])) for a in ax)) if coq['ok'] or coq['theorems'] else 0
     if not coq['ok'] and any('build of Props' in p for p in coq['problems']):
         discharged = 0
     evaluations = sum(s.cases for s in stages)
